@@ -56,6 +56,6 @@ def lines_parsed_independently(ctx, rule):
         empty_ok = isinstance(v, ListV) and not v.items and any(l.startswith("not ") for l in p.cond_labels())
         ok = empty_ok or (isinstance(v, AbsList) and v.src == "file lines" and I.expr_of(v.elem) == "parse_line(<LINE>)" and not any(
             v.flags.get(k) for k in ("filters", "order", "sliced", "dedup", "mixed", "prefix_items")))
-        extra = [e.kind for e in p.events if e.kind in ("setattr_class", "global_decl", "memo_hit", "setitem_unknown")]
+        extra = [e.kind for e in p.events if e.kind in ("setattr_class", "global_decl", "memo_hit", "setitem_unknown", "loop_carried_store")]
         ctx.check(ok and not extra, rule, "parse_file_lines", f"result={v!r} conds={p.cond_labels()[:3]} state={extra}"[:220],
                   "every line is parsed on its own: the result list is parse_line(line) for each line, in order")
